@@ -344,6 +344,7 @@ pub fn record(args: &[String]) {
 			g.force_drop_at = Some(60);
 		}
 		g.long_regimes = std::env::var("YV_LONG_REGIMES").is_ok();
+		g.halts = std::env::var("YV_HALTS").is_ok();
 		// every fourth program runs on a tick grid (about 0.4 % of the price): double tops, equal lows, repeated closes
 		if k % 4 == 1 && name != "TrendStrengthIndex" && witness.is_none() {
 			let p0 = g.candle().close as f64;
